@@ -106,7 +106,10 @@ def run_p(report: Report, prop: str, tier: str, targets: Optional[List[str]] = N
                 report.discharged += 1
             report.per_obligation.append({"function": t.split(":")[1], "name": v["name"], "kind": v["kind"], "result": v["status"], "solver": v["solver"], "ms": v["ms"]})
         current[t] = names
-        bad = [v for v in r["verdicts"] if v["status"] != "discharged"]
+        for v in r["verdicts"]:
+            if v["kind"] == "vacuity" and v["status"] != "discharged":
+                report.tool_error(f"{t}: contradictory preconditions / lemmas / axioms (vacuity guard proved False)")
+        bad = [v for v in r["verdicts"] if v["status"] != "discharged" and v["kind"] != "vacuity"]
         seen = set()
         for v in bad:
             key = (t, v["name"])
